@@ -1,5 +1,5 @@
 (** C07 - Worker loss: running tasks are restarted or failed per crash limit, nothing else. *)
-From HQ Require Import Base.Prelude Cluster.Types Cluster.Core Cluster.Reactor Cluster.Worker Cluster.Server Cluster.Sys Cluster.Monitors Cluster.ProofsJob Cluster.ProofsCore Cluster.ProofsMore Cluster.BijFinal Cluster.CrashFrame.
+From HQ Require Import Base.Prelude Cluster.Types Cluster.Core Cluster.Reactor Cluster.Worker Cluster.Server Cluster.Sys Cluster.Monitors Cluster.ProofsJob Cluster.ProofsCore Cluster.ProofsMore Cluster.BijFinal Cluster.CrashFrame Cluster.RejHyp Cluster.ReleaseLost0 Cluster.ReleaseLost.
 From Coq Require Import ZArith.
 Local Open Scope N_scope.
 
@@ -43,7 +43,31 @@ Theorem C07_crash_counter_example : Forall op_wf crash_ops /\ exists s outs s' o
   t_state t = Running 1 0 /\ t_crash t = 0 /\ t_crash t' = 1.
 Proof. exact crash_example. Qed.
 
+(** When a worker is lost for a failure reason, EVERY task that was running on it (or whose
+    multi-node root it was) is counted: it stays with its counter + 1, or - the limit reached - it is
+    failed with the right kind, or it was aborted with its job in the same step (another task of
+    the job failed at its limit and the job exceeded max-fails; the example shows this third case
+    cannot be dropped). *)
+Theorem C07_lost_running_all_counted : forall ops reserve maxfill s outs w reason a p t s' outs' id tk,
+  Forall op_wf ops -> run_fresh (init_sys reserve maxfill) ops = true -> run (init_sys reserve maxfill) ops = Ok (s, outs) ->
+  step s (OpLost w reason a p t) = Ok (s', outs') -> reason_is_failure reason = true ->
+  find_task (c_tasks (s_core s)) id = Some tk ->
+  ((exists rv, t_state tk = Running w rv) \/ (exists rest, t_state tk = RunningMN (w :: rest))) ->
+  (limit_hit tk = false /\
+   exists tk', find_task (c_tasks (s_core s')) id = Some tk' /\ t_crash tk' = t_crash tk + 1 /\ t_climit tk' = t_climit tk) \/
+  (find_task (c_tasks (s_core s')) id = None /\
+   ((limit_hit tk = true /\ In (OEv (EvFailed id (fail_kind tk))) outs') \/
+    exists ids, In id ids /\ In (OEv (EvAborted ids)) outs')).
+Proof. exact lost_running_all_counted. Qed.
+Definition C07_lost_counted_example_kept := lost_counted_example_kept.
+Definition C07_lost_counted_example_failed := lost_counted_example_failed.
+Definition C07_lost_counted_example_aborted := lost_counted_example_aborted.
+
 Print Assumptions C07_crash_counter_rule.
 Print Assumptions C07_crash_counter_example.
 Print Assumptions C07_crash_limit_rule.
 Print Assumptions C07_failure_reasons.
+Print Assumptions C07_lost_running_all_counted.
+Print Assumptions C07_lost_counted_example_kept.
+Print Assumptions C07_lost_counted_example_failed.
+Print Assumptions C07_lost_counted_example_aborted.
